@@ -143,9 +143,12 @@ func VerifV1BatchedAcks() {
 	case <-p.ctx.Done():
 	}
 	stopErr := p.src.Stop(p.ctx, nil)
+	// (if the stop never completes the run is reported as a hang, which counts for
+	// C09 and, through hang_properties, for C06)
 	err := p.wait()
 	p.w.checkEnd(err == nil && stopErr == nil)
 	verifAssert(err == nil, "c09-batched-acks-broke-the-pipeline")
+	verifAssert(err == nil, "c06-graceful-stop-of-healthy-pipeline-failed")
 	p.w.mu.Lock()
 	verifAssert(len(p.w.src.acked) == K, "c09-record-left-unacknowledged")
 	p.w.mu.Unlock()
